@@ -1,5 +1,6 @@
 import MpVerif.C10.Model
 import MpVerif.Gen.StatusReport
+import MpVerif.Gen.StatusFlags
 /-!
 # C10 — the report assembled **only** from definitions regenerated from the source
 
@@ -39,5 +40,11 @@ def predicateUseSites : List (String × String) := [
   ("StdBackend::ModifySolveCodeAndMessageAfterRounding", "IsSolStatusRetrieved"),  -- guards an empty block (no effect)
   ("StdBackend::ReportSolution2AMPL", "IsProblemSolvedOrFeasible"),   -- `msgTable`
   ("StdBackend::ReportStandardSuffixes", "IsProblemSolved")]          -- `extras.kappaSuffix`
+
+/-- guard of a step of the generated `AppSolutionHandlerImpl::HandleSolution` table (false if the step does not exist) -/
+def appGuard (label : String) (x : AppCtx) : Bool :=
+  match Gen.StatusFlags.appTable.find? (fun p => p.1 == label) with
+  | some p => p.2 x
+  | none => false
 
 end MpVerif.C10
